@@ -17,14 +17,19 @@ RULE = (
     "Case = a real logged-in SoulSeekClient sharing 1..3 small files, 1..5 scripted downloaders (server-side status "
     "online/away/offline/unknown(AddUser never answered), friend flag, privilege flag (PrivilegedUsers list after "
     "login), delay of their PeerTransferReply 2/70/300 ms, control connection kept open or closed after each request "
-    "so that the client must connect first (2 ms / 120 ms): INITIALIZING spans 0..10 management cycles), initial "
+    "so that the client must connect first (2 ms / 120 ms): INITIALIZING spans 0..10 management cycles; optionally a "
+    "flaw of the FIRST negotiation attempt only: first PeerTransferRequest never answered (reply timeout after 30 s) "
+    "| peer not connectable for the first file connection (direct refused, indirect CannotConnect) | first file "
+    "connection closed before the offset -- the client re-queues the upload from inside its negotiation task and "
+    "has to start it again, possibly with nothing else happening afterwards), initial "
     "slot limit 0..4, upload bandwidth 1..4 KiB/s (uploads last 0.1..6 s of virtual time) and a history of <= 14 "
     "events: queue request (PeerTransferQueue from user u for file f; also re-queues COMPLETE/FAILED uploads), wait "
     "until the k-th active upload finishes, failure (downloader closes / resets the file connection), refusal "
     "(downloader answers allowed=False), abort / pause / queue through client.transfers, status change "
     "(GetUserStatus.Response), privilege list / AddPrivilegedUser, friend list change, limit change "
     "(settings.transfers.limits.upload_slots) and advance(dt) with dt in {0, 10 ms, 49 ms, 51 ms, 250 ms, 2 s}; then "
-    "30 s of virtual time without events. Observation: a TransferStateListener on every upload, a snapshot of what "
+    "30 s of virtual time without external events followed by up to 50 windows of 2 s while uploads are still active "
+    "or look stuck (covers reply timeout + retry + transfer). Observation: a TransferStateListener on every upload, a snapshot of what "
     "the client knows (upload states, user status/privileged from client.users, friends and limit from "
     "client.settings) taken at every call of TransferManager.manage_transfers (the decision instant), the "
     "PeerTransferRequest messages arriving at the scripted peers. Oracle: (1) at every notification and driver step "
@@ -35,20 +40,23 @@ RULE = (
     "started; (5) per management cycle: when an upload of user a was started, no user b with a QUEUED upload, not "
     "OFFLINE, without an active upload and of strictly higher class (privileged > friend > online/away > unknown, as "
     "known at the decision) was passed over (= none of b's uploads changed state before the next cycle); ties "
-    "unconstrained; (6) after the quiet period no QUEUED upload of a not-offline user without active upload exists "
-    "while a slot is free, stable over a further 2 s window without any state change. Non-trivial = at some "
+    "unconstrained; (6) after the quiet period, in no 2 s window without any state change does a QUEUED upload of a "
+    "not-offline user without active upload exist while a slot is free. Non-trivial = at some "
     "management cycle more eligible users had a QUEUED upload than slots were free; distinct = (population, initial "
     "limit, event-kind sequence)."
 )
 ASSUMPTIONS = [
     "in-memory TCP (ordered, lossless, latency 1 ms) and a protocol-level server model; scripted downloaders follow "
-    "the transfer negotiation honestly except for the generated refusal / early close / reset",
+    "the transfer negotiation honestly except for the generated refusal / early close / reset and the generated "
+    "first-attempt flaw (unanswered request, unreachable for the file connection, hang-up before the offset), after "
+    "which they behave; peers that stay silent or unreachable for ever are outside the domain",
     "the start of an upload is attributed to the most recent manage_transfers call at which it was QUEUED (the "
     "decision instant); limit and user knowledge are read at that instant from the client's own objects, never from "
     "what the script intends",
     "which of several QUEUED uploads of one user is started, and the order among users of equal class, are not "
     "constrained",
-    "'eventually' is decided at a horizon of 30 s of virtual time without external events plus a 2 s stable window",
+    "'eventually' is decided at a horizon of 30 s of virtual time without external events plus up to 100 s while "
+    "uploads are active, in 2 s windows: a violation needs a whole window without any transfer state change",
     "shares are mode 'everyone' and never change, nobody is blocked (entitlement is C08's subject)",
     "client.transfers.queue() is called in the states its documentation lists (ABORTED, PAUSED, COMPLETE, FAILED) and "
     "in QUEUED / UPLOADING where it raises InvalidStateTransition, but not on an INITIALIZING upload: there it "
@@ -66,11 +74,19 @@ REPLY_DELAYS = [0.002, 0.070, 0.300]
 # client has to connect to the peer before it can send PeerTransferRequest (connect takes 2 ms | 120 ms)
 LINK_MODES = ['keep', 'drop', 'drop-slow']
 CONNECT_DELAY = {'keep': 0.002, 'drop': 0.002, 'drop-slow': 0.120}
+# negotiation flaw of a downloader, applied to the FIRST attempt only (it behaves afterwards): the client puts the
+# upload back to QUEUED from inside its own negotiation task and must start it again
+#   silent-once      : the first PeerTransferRequest is never answered (reply timeout after 30 s)
+#   unreachable-once : after the first positive reply the peer cannot be connected to (direct connect refused,
+#                      indirect request answered by CannotConnect) until the client asks again
+#   eof-once         : the first file connection is closed after the ticket, before the offset is sent
+FLAWS = ['none', 'silent-once', 'unreachable-once', 'eof-once']
 SPEEDS = [1, 2, 4]
 OPS = ['queue', 'adv', 'finish', 'fail', 'refuse', 'abort', 'pause', 'requeue', 'status', 'privs', 'addpriv',
        'friend', 'limit']
 MAX_EVENTS = 14
-QUIET = 30.0
+QUIET = 30.0            # virtual seconds without external events before liveness is judged ...
+DRAIN_ROUNDS = 50       # ... then up to 50 further windows of 2 s while uploads are still active / look stuck
 ACTIVE = ('INITIALIZING', 'UPLOADING')
 CLASS_NAMES = ['unknown', 'online', 'friend', 'privileged']
 
@@ -114,6 +130,7 @@ def case_strategy(draw):
             'priv': draw(st.integers(0, 3)) == 0,
             'reply': draw(st.sampled_from([0, 0, 1, 2])),
             'link': draw(st.sampled_from([0, 0, 1, 2])),
+            'flaw': draw(st.sampled_from([0, 0, 0, 1, 2, 3])),
         })
     sizes = draw(st.lists(st.sampled_from([400, 1100, 1600, 2500, 4000, 6000]), min_size=1, max_size=3))
     n_burst = draw(st.integers(1, 6))
@@ -151,7 +168,8 @@ def _sanitise(case):
         users.append({'status': u.get('status') if u.get('status') in STATUSES else 'online',
                       'friend': bool(u.get('friend')), 'priv': bool(u.get('priv')),
                       'reply': _int(u.get('reply'), 0, len(REPLY_DELAYS) - 1),
-                      'link': _int(u.get('link'), 0, len(LINK_MODES) - 1)})
+                      'link': _int(u.get('link'), 0, len(LINK_MODES) - 1),
+                      'flaw': _int(u.get('flaw'), 0, len(FLAWS) - 1)})
     if not users:
         return None
     sizes = [_int(s, 200, 8000, 1100) for s in (case.get('sizes') if isinstance(case.get('sizes'), list) else [])][:3]
@@ -253,7 +271,9 @@ class Observer:
 
     def user_info(self, name):
         """(status name, privileged, friend) exactly as the client's own objects say right now (no side effects)."""
-        user = self.client.users.users.get(name)
+        # WeakValueDictionary.get never raises; the public `users` property copies the whole weak dictionary, which
+        # can raise KeyError when an entry dies during the copy (seen under a mutant, garbage-collector dependent)
+        user = self.client.users._users.get(name)
         friend = name in self.client.settings.users.friends
         if user is None:
             # what get_user_object() would create: UNKNOWN, privileged iff in the stored list
@@ -415,7 +435,61 @@ class Observer:
                       if s == 'QUEUED' and k[0] not in active_users and self.user_info(k[0])[0] != 'OFFLINE')
 
 
+def _install_flaw(world, down, flaw, res):
+    """Make the FIRST negotiation attempt with this downloader fail in a way that sends the upload back to QUEUED;
+    later attempts are served normally. Everything stays recorded by the ScriptedDownloader."""
+    if flaw == 'none':
+        return
+    M = simworld.M()
+    peer = down.peer
+    st_ = {'armed': True, 'blocked': False}
+    orig_on_message = down._on_message
+    orig_on_file_data = down._on_file_data
+
+    def unblock():
+        if st_['blocked']:
+            st_['blocked'] = False
+            peer.set_direct('accept')
+            peer.indirect = 'pierce'
+
+    def on_message(link, msg):
+        if isinstance(msg, M.PeerTransferRequest.Request):
+            if st_['blocked']:
+                unblock()                       # the client asks again: reachable from now on
+            elif st_['armed'] and flaw == 'silent-once':
+                st_['armed'] = False
+                res.label('flaw-fired:' + flaw)
+                down.silent = True
+                try:
+                    orig_on_message(link, msg)  # recorded, not answered
+                finally:
+                    down.silent = False
+                return
+            elif st_['armed'] and flaw == 'unreachable-once' and down.allow:
+                st_['armed'] = False
+                st_['blocked'] = True
+                res.label('flaw-fired:' + flaw)
+                peer.set_direct('refuse')
+                peer.indirect = 'cannot'
+                world.loop.call_later(down.reply_delay + 3.0, unblock)   # fallback only
+        orig_on_message(link, msg)
+
+    def on_file_data(link):
+        if st_['armed'] and flaw == 'eof-once' and getattr(link, 'attempt', None) is None and len(link.raw) >= 4:
+            st_['armed'] = False
+            res.label('flaw-fired:' + flaw)
+            link.ep.close()                     # ticket received, hang up before sending the offset
+            return
+        orig_on_file_data(link)
+
+    peer.on_message = on_message
+    peer.on_file_data = on_file_data
+
+
 _LAST: dict = {}
+# per-case scratch directory: memory backed when available (creating / removing a directory on the disk behind /tmp
+# costs 10..70 ms under load, more than the case itself)
+_TMP_BASE = '/dev/shm' if os.path.isdir('/dev/shm') and os.access('/dev/shm', os.W_OK | os.X_OK) else None
 
 
 def run_case(case) -> CaseResult:
@@ -428,7 +502,7 @@ def run_case(case) -> CaseResult:
     from aioslsk.protocol import messages as M
 
     names = ['u%d' % i for i in range(len(c['users']))]
-    tmp = tempfile.mkdtemp(prefix='vfw-c05-')
+    tmp = tempfile.mkdtemp(prefix='vfw-c05-', dir=_TMP_BASE)
     out: dict = {}
 
     async def main(world: simworld.World):
@@ -443,6 +517,7 @@ def run_case(case) -> CaseResult:
             delay = CONNECT_DELAY[LINK_MODES[u['link']]]
             d = xfer.ScriptedDownloader(world, n, direct_delay=delay, indirect_delay=delay)
             d.reply_delay = REPLY_DELAYS[u['reply']]
+            _install_flaw(world, d, FLAWS[u['flaw']], res)
             downs[n] = d
             su = world.server.users[n]
             su['status'] = STATUS_CODE.get(u['status'], 2)
@@ -572,17 +647,23 @@ def run_case(case) -> CaseResult:
             obs.check_requests(downs)
 
         # ---- quiet period, bounded liveness ------------------------------------
+        t_quiet = loop.time()
         await asyncio.sleep(QUIET)
         obs.check_now('after quiet period')
         obs.check_requests(downs)
-        stuck = obs.stuck()
         rounds = 0
-        while stuck and rounds < 40:
+        undecided = False
+        while True:
+            stuck = obs.stuck()
+            if not stuck and not obs.active_keys():
+                break                       # nothing runs, nothing eligible waits for a free slot
+            if rounds >= DRAIN_ROUNDS:
+                undecided = True
+                break
             rounds += 1
             before = len(obs.trans)
             await asyncio.sleep(2.0)
-            again = obs.stuck()
-            if len(obs.trans) == before and again == stuck:
+            if stuck and len(obs.trans) == before and obs.stuck() == stuck:
                 limit = client.settings.transfers.limits.upload_slots
                 # root cause tag: the last decision was taken under a smaller limit than the current one, i.e. no
                 # management cycle has run since the limit was raised
@@ -590,13 +671,13 @@ def run_case(case) -> CaseResult:
                 obs.violate(
                     f'C05/eligible-upload-not-started{cause}',
                     f'{[(k[0], k[1][-6:], obs.user_info(k[0])) for k in stuck]} stay QUEUED with '
-                    f'{len(obs.active_keys())} active uploads and limit {limit}, no state change for 2 s after '
-                    f'{QUIET + 2 * (rounds - 1)} s without events; last management cycle at '
+                    f'{len(obs.active_keys())} active uploads and limit {limit}, no state change during the last 2 s, '
+                    f'{round(loop.time() - t_quiet, 3)} s after the last external event; last management cycle at '
                     f't={obs.cycles[-1]["time"] if obs.cycles else None}')
                 break
-            stuck = again
-        if stuck and rounds >= 40:
+        if undecided:
             res.label('liveness-undecided')
+        obs.check_now('end of run')
         obs._close_batch()
         obs.check_requests(downs)
         out['final_states'] = {k: obs.state_of(k) for k in obs.uploads}
@@ -619,14 +700,15 @@ def run_case(case) -> CaseResult:
 
     # ---- labels / distinctness ----------------------------------------------
     res.nontrivial = obs.contended
-    res.key = [[(u['status'], u['friend'], u['priv'], u['reply'], u['link']) for u in c['users']], c['limit'],
+    res.key = [[(u['status'], u['friend'], u['priv'], u['reply'], u['link'], u['flaw']) for u in c['users']],
+               c['limit'],
                [e['op'] for e in c['events']]]
     res.label('users:%d' % len(c['users']), 'limit0:%d' % c['limit'], 'max-active:%d' % obs.max_active,
               'starts:%s' % min(9, sum(obs.starts.values())), 'cycles:%s' % (min(len(obs.cycles), 100) // 10 * 10))
     for e in c['events']:
         res.label('op:' + e['op'])
     for u in c['users']:
-        res.label('status0:' + u['status'], 'link:' + LINK_MODES[u['link']])
+        res.label('status0:' + u['status'], 'link:' + LINK_MODES[u['link']], 'flaw:' + FLAWS[u['flaw']])
     if obs.contended:
         res.label('contended')
     if obs.priority_exercised:
@@ -637,6 +719,8 @@ def run_case(case) -> CaseResult:
         res.label('final:' + s)
     if any(n > 1 for n in obs.starts.values()):
         res.label('restarted-upload')
+    if any(old == 'INITIALIZING' and new == 'QUEUED' for _, _, _, old, new in obs.trans):
+        res.label('requeued-by-failed-negotiation')
     batch = max([len(sn['started']) for sn in obs.cycles] or [0])
     res.label('max-batch:%d' % batch)
     res.info = {'transitions': len(obs.trans), 'cycles': len(obs.cycles)}
@@ -656,13 +740,14 @@ KNOWN_REPLAYS = {
 
 
 def run_shard(ctx):
-    n = 250 if ctx.tier == 'quick' else 4000
+    n = 200 if ctx.tier == 'quick' else 4000
     ctx.explore(case_strategy(), n)
 
 
 MANIFEST_ENTRY = {
     'technique': 'property-based testing (Hypothesis): generated event histories (queue requests, completions, '
-                 'failures, refusals, user abort/pause/queue, status / privilege / friend / limit changes, advances '
+                 'failures, first-attempt negotiation failures (unanswered request, unreachable peer, early hang-up), '
+                 'refusals, user abort/pause/queue, status / privilege / friend / limit changes, advances '
                  'of 0..2 s placed around the 50..250 ms management cycles) against a real SoulSeekClient on a '
                  'virtual-time loop with in-memory TCP, simulated server and scripted downloaders; slot / per-user / '
                  'request-count invariants at every state notification, class-dominance oracle per management '
